@@ -25,7 +25,7 @@ var incrOptional = []string{
 	"auto.",
 	"i.run.rlock", "i.evict.entry", "i.acquire", "i.acquired", "i.release", "i.released", "i.cancelled",
 	"i.resolve.deps", "i.join.released", "i.join.woke", "i.run.entry", "i.run.cas", "i.done.close", "i.done.closed",
-	"i.wait.cycle", "i.wait.select", "i.wait.woke", "h.op",
+	"i.wait.cycle", "i.wait.select", "i.wait.woke", "h.op", "h.key",
 }
 
 // GraphSpec is a generated query graph: node i depends on Deps[i], resolved in
@@ -112,7 +112,11 @@ type gquery struct {
 	id int
 }
 
-func (q gquery) Key() any { return gqKey{q.id} }
+// Key is a scheduling point too (see fdsQuery.Key).
+func (q gquery) Key() any {
+	sim.Yield("h.key", "")
+	return gqKey{q.id}
+}
 
 func hashVals(id int, input int64, deps []int64) int64 {
 	h := fnv.New64a()
